@@ -1218,6 +1218,72 @@ def c13_tree_cases(exe, tier, seed, verdict):
     o = core.run_cases(exe, [("nf", s)], jobs=1)["nf"]
     if o["crash"] or o["ev"][0]["rc"] != "ECONF_NOFILE" or o["ev"][0]["obj"]:
         verdict.violation("C13:nofile", {"kind": "script", "script": s, "out": o}, "reading a missing file: %s" % (o["ev"][:1] or o["crash"]))
+    # ... in every way a file can be missing: no such name in an existing directory, a missing directory, a path component that is
+    # a plain file, a name / a path longer than the system allows, a symbolic link to nowhere; with both single-file entry points
+    M = ROOT + "/missing"
+    ways = [("no such name", M + "/d/none.conf"), ("missing directory", M + "/nodir/x/none.conf"), ("component is a plain file", M + "/d/plain.conf/none.conf"),
+            ("component is a plain file, deeper", M + "/d/plain.conf/a/b/none.conf"), ("name of 300 bytes", M + "/d/" + "n" * 300 + ".conf"),
+            ("path of 5000 bytes", M + "/d" + "/dddddddd" * 620 + "/none.conf"), ("link to nowhere", M + "/d/dangling.conf"),
+            ("link through a plain file", M + "/d/through.conf")]
+    s = ["file %s %s" % (hx(M + "/d/plain.conf"), hx("a=1\n")), "symlink %s %s" % (hx(M + "/d/nowhere"), hx(M + "/d/dangling.conf")),
+         "symlink %s %s" % (hx(M + "/d/plain.conf/x"), hx(M + "/d/through.conf"))]
+    for _, pth in ways:
+        s += ["readfile 1 %s x3d x23" % hx(pth), "free 1", "cbreset", "readfilecb 2 %s x3d x23" % hx(pth), "free 2"]
+    o = core.run_cases(exe, [("nf2", s)], jobs=1)["nf2"]
+    if o["crash"]:
+        verdict.violation("C13:nofile:crash", {"kind": "script", "script": s, "crash": o["crash"]}, "reading a missing file crashed\n" + o["crash"][:700])
+    else:
+        rds = [e for e in o["ev"] if e["op"].startswith("readfile")]
+        for j, (what, pth) in enumerate(ways):
+            for e in rds[2 * j:2 * j + 2]:
+                if e["rc"] != "ECONF_NOFILE" or e.get("obj"):
+                    verdict.violation("C13:nofile:%s" % what.replace(" ", "-"), {"kind": "script", "script": s, "way": what, "got": e},
+                                      "reading a missing file (%s) with %s: %s, object %s; expected ECONF_NOFILE and no object" % (what, e["op"], e["rc"], e.get("obj")))
+                else:
+                    ok += 1
+    # ... and in a layered read: a layer whose directory is a plain file (or whose name is too long) holds no file - the other
+    # layers are delivered, and a malformed drop-in of another layer is still reported with its own code, path and line
+    cases = []
+    for j, (layer, bad) in enumerate([(l, b) for l in ("etc", "run", "usr/lib") for b in (False, True)]):
+        R = ROOT + "/ml%d" % j
+        good = [l for l in ("usr/lib", "run", "etc") if l != layer]
+        sc = ["file %s %s" % (hx(R + "/" + layer), hx("plain\n"))]
+        sc += ["file %s %s" % (hx(R + "/%s/cfg.conf" % good[0]), hx("a=1\n")), "file %s %s" % (hx(R + "/%s/cfg.conf.d/x.conf" % good[1]), hx("b=2\n[S\n" if bad else "b=2\n"))]
+        sc += ["newopt 1 %s" % hx("ROOT_PREFIX=" + R), "readconfig 1 - %s %s %s x3d x23" % (hx("/usr/lib"), hx("cfg"), hx("conf")), "errloc", "dump 1", "free 1"]
+        sc += ["readdirs 2 %s %s %s %s x3d x23" % (hx(R + "/usr/lib"), hx(R + "/etc"), hx("cfg"), hx("conf")), "errloc", "dump 2", "free 2"]
+        cases.append((j, sc))
+        metas.append(None)
+    res2 = core.run_cases(exe, cases)
+    for j, sc in cases:
+        o = res2.get(j)
+        layer, bad = [(l, b) for l in ("etc", "run", "usr/lib") for b in (False, True)][j]
+        case = {"kind": "script", "script": sc, "layer_is_plain_file": layer, "malformed_dropin": bad}
+        if o is None or o["crash"]:
+            verdict.violation("C13:layer-not-a-directory:crash", dict(case, crash=(o or {}).get("crash")), "layered read with layer %s being a plain file crashed" % layer)
+            continue
+        rds = [e for e in o["ev"] if e["op"].startswith("read")]
+        els = [e for e in o["ev"] if e["op"] == "errloc"]
+        dumps = [e for e in o["ev"] if e["op"] == "dump"]
+        root = o["root"]
+        good = [l for l in ("usr/lib", "run", "etc") if l != layer]
+        for k, (rd, el, dm) in enumerate(zip(rds, els, dumps)):
+            # econf_readDirs consults the two given directories only
+            seen_main = k == 0 or good[0] != "run"
+            seen_drop = k == 0 or good[1] != "run"
+            if bad and seen_drop:
+                want = {"rc": "ECONF_MISSING_BRACKET", "file": norm(root + "/ml%d/%s/cfg.conf.d/x.conf" % (j, good[1])), "line": 2}
+                got = {"rc": rd["rc"], "file": norm(el["file"] or ""), "line": el["line"]}
+            else:
+                ents = ([("", "a", "1")] if seen_main else []) + ([("", "b", "2")] if seen_drop else [])
+                want = {"rc": "ECONF_SUCCESS" if ents else "ECONF_NOFILE", "ents": sorted(ents)}
+                got = {"rc": rd["rc"], "ents": sorted((core.uncodes(e["g"]), core.uncodes(e["k"]), core.uncodes(e["v"])) for e in (listing_of_dump(dm) or []))} if rd["rc"] == "ECONF_SUCCESS" else {"rc": rd["rc"], "ents": []}
+                if not ents:
+                    want["ents"] = []
+            if got != want:
+                verdict.violation("C13:layer-not-a-directory", dict(case, entry=rd["op"], got=got, want=want),
+                                  "%s with layer %s being a plain file%s: expected %s, library gave %s" % (rd["op"], layer, " and a malformed drop-in elsewhere" if bad else "", want, got))
+            else:
+                ok += 1
     return {"n": ok, "nontrivial": nn, "samples": samples}
 
 
